@@ -247,14 +247,14 @@ def classify(prop, violations, viol_by_mech):
 
 
 def write_replay(prop, v):
-    d = os.path.join(VERIF, "replays", prop)
+    d = os.path.join(os.environ.get("VERIF_REPLAY_DIR") or os.path.join(VERIF, "replays"), prop)
     os.makedirs(d, exist_ok=True)
     name = sha([v["mechanism"], v["case"]]) + ".json"
     path = os.path.join(d, name)
     with open(path, "w") as f:
         json.dump({"property": prop, "mechanism": v["mechanism"], "message": v["message"],
                    "detail": v["detail"], "case": v["case"]}, f, indent=1, default=str)
-    return os.path.relpath(path, VERIF)
+    return os.path.relpath(path, VERIF) if path.startswith(VERIF + os.sep) else path
 
 
 def finish(mod, tier, seed, agg, problems, t0, ncases, exhaustive=False, extra=None):
@@ -296,8 +296,9 @@ def finish(mod, tier, seed, agg, problems, t0, ncases, exhaustive=False, extra=N
         "wall_s": round(time.time() - t0, 2),
         "violations": int(sum(agg["viol_by_mech"].values())),
     }
-    os.makedirs(os.path.join(VERIF, "evidence"), exist_ok=True)
-    with open(os.path.join(VERIF, "evidence", prop + ".json"), "w") as f:
+    evdir = os.environ.get("VERIF_EVIDENCE_DIR") or os.path.join(VERIF, "evidence")
+    os.makedirs(evdir, exist_ok=True)
+    with open(os.path.join(evdir, prop + ".json"), "w") as f:
         json.dump(ev, f, indent=1, sort_keys=True, default=str)
         f.write("\n")
 
